@@ -161,11 +161,32 @@ func e1Compare(sc *e1Scenario, h *hist.Hist, col *evid.Collector, mode, ref stri
 		col.Violation(prop+":tag-entry-accepted-below-threshold-after-an-earlier-entry-for-the-tag-under-the-same-policy-state", desc+" (verifying the first tag entry lowers the threshold of the policy state's memoised verifier to 1)", rp)
 	case err == nil && !lenient.OK:
 		col.Violation(fmt.Sprintf("%s:false-accept:%s:%s", prop, mode, strings.SplitN(lenient.Reason, ":", 2)[0]), desc, rp)
-	case err != nil && lenient.OK && strict.OK && h.A.AllPoliciesValid():
+	case err != nil && lenient.OK && strict.OK && h.A.AllPoliciesValid() && !e1TagMoved(h, ref):
 		col.Violation(fmt.Sprintf("%s:false-reject:%s:%s", prop, mode, ec), desc+" ("+err.Error()+")", rp)
 	case err == nil && !tip.Equal(wantTip):
 		col.Violation(prop+":wrong-tip:"+mode, desc+fmt.Sprintf(" tip=%s want=%s", tip, wantTip), rp)
 	}
+}
+
+// e1TagMoved: ref is a tag that the history records at two different tag
+// objects. gittuf treats tags as immutable ("any tag" is a brand new reference
+// in the design document; verifyTagEntry requires the tag reference to still
+// be at the entry's target), so once a tag has been moved its earlier entries
+// no longer verify. That such a history verifies is not demanded (only
+// soundness is judged for it).
+func e1TagMoved(h *hist.Hist, ref string) bool {
+	first := ""
+	for _, e := range h.A.Entries {
+		if e.Kind != refver.Push || !e.IsTag || e.Ref != ref {
+			continue
+		}
+		if first == "" {
+			first = e.Commit
+		} else if e.Commit != first {
+			return true
+		}
+	}
+	return false
 }
 
 // e1EarlierTagEntrySamePolicy: entry at is a tag entry and an earlier entry
